@@ -563,10 +563,17 @@ def setOCIBlobDigestPlan (sha : Bytes → Bytes) (parseHash : Bytes → Option B
 
 /-- `io.NewSectionReader(r, off, n)` + `io.ReadFull` of `want` bytes at section position `cur`:
     `none` on a short read or a refused offset. -/
+def wrap64 (x : Int) : Int := (x + 9223372036854775808) % 18446744073709551616 - 9223372036854775808
+
+/-- the limit `io.NewSectionReader(r, off, n)` computes, including its overflow rule: when
+    `off + n` does not fit (in particular for negative `n`, where `maxint64 - n` wraps) the
+    section extends to `1<<63 - 1` -/
+def sectionLimit (off n : Int) : Int := if off ≤ wrap64 (maxI64 - n) then off + n else maxI64
+
 def sectionRead (buf : Bytes) (off n : Int) (cur : Nat) (want : Nat) : Option Bytes :=
   if off < 0 then none                      -- ReadAt refuses a negative offset
   else
-    let limit : Int := off + n              -- (no wrap: the model keeps Int; see WF bounds)
+    let limit := sectionLimit off n
     let start : Int := off + cur
     if start + want > limit then none
     else
